@@ -8,8 +8,10 @@ import (
 	"io"
 	"math/rand"
 	"reflect"
+	"runtime"
 	"sort"
 	"strings"
+	"time"
 	"unsafe"
 
 	"github.com/mlange-42/ark/ecs"
@@ -272,6 +274,54 @@ func (x *Exec) dumpLoad(op GenOp, lo *LogOp) {
 	}
 }
 
+// LogMem is a "mem" event (C11): after forced garbage collections, which heap objects written into pointer-bearing
+// components were allocated during this history, which of them are still referenced from components of alive
+// entities, and which were finalized.
+type LogMem struct {
+	K     string  `json:"k"`
+	Alloc []int64 `json:"alloc"`
+	Refd  []int64 `json:"refd"`
+	Final []int64 `json:"final"`
+}
+
+func (x *Exec) memEvent() {
+	for i := 0; i < 4; i++ {
+		runtime.GC()
+		time.Sleep(2 * time.Millisecond)
+	}
+	ev := LogMem{K: "mem", Alloc: []int64{}, Refd: []int64{}, Final: []int64{}}
+	seen := map[int64]bool{}
+	for _, h := range x.issued {
+		if !x.w.Alive(h) {
+			continue
+		}
+		ids := x.w.Unsafe().IDs(h)
+		for i := 0; i < ids.Len(); i++ {
+			c := x.names[ids.Get(i)]
+			if !isRichName(c) {
+				continue
+			}
+			s := x.serialOf(c, x.payload(c, x.w.Unsafe().Get(h, ids.Get(i))))
+			if s != 0 && !seen[s] {
+				seen[s] = true
+				ev.Refd = append(ev.Refd, s)
+			}
+		}
+	}
+	heapMu.Lock()
+	for s := range heapAlloc {
+		ev.Alloc = append(ev.Alloc, s)
+		if heapFinal[s] {
+			ev.Final = append(ev.Final, s)
+		}
+	}
+	heapMu.Unlock()
+	sort.Slice(ev.Alloc, func(i, j int) bool { return ev.Alloc[i] < ev.Alloc[j] })
+	sort.Slice(ev.Final, func(i, j int) bool { return ev.Final[i] < ev.Final[j] })
+	sort.Slice(ev.Refd, func(i, j int) bool { return ev.Refd[i] < ev.Refd[j] })
+	x.emit(ev)
+}
+
 // LogStats is a "stats" event: the statistics of the world under test and of its replayed twin.
 type LogStats struct {
 	K     string   `json:"k"`
@@ -397,6 +447,9 @@ type Config struct {
 	ResetP    int      `json:"resetp"`    // driver: per-mille probability of World.Reset / DumpLoad per step
 	TypedObs  bool     `json:"typedobs"`  // register observers through Observer1..4 where the observed set allows
 	Arity     bool     `json:"arity"`     // driver: draw component sets from the instantiated tuples of all arities
+	MapT      bool     `json:"mapt"`      // single-component operations through the hand-written ecs.Map[T] instead of Map1
+	Mem       bool     `json:"mem"`       // emit mem events (heap objects of pointer-bearing components after forced GC)
+	GCStress  bool     `json:"gcstress"`  // collect garbage continuously in the background while histories run
 	QMis      bool     `json:"qmis"`      // run the query / mapper misuse battery after each history (C20)
 	Stats     bool     `json:"stats"`     // emit a stats event (with replayed twin) after each history
 	Queries   int      `json:"queries"`   // driver: max simultaneously open queries (0 = none)
@@ -464,7 +517,8 @@ func (x *Exec) emit(v any) {
 	x.Events++
 }
 
-func isRelName(n string) bool { return n == "R" || n == "S" }
+func isRelName(n string) bool  { return n == "R" || n == "S" || n == "Q" }
+func isRichName(n string) bool { return n == "P" || n == "Q" }
 
 func (x *Exec) newWorld() {
 	x.w = ecs.NewWorld(x.Cfg.Caps...)
@@ -490,6 +544,7 @@ func (x *Exec) newWorld() {
 	x.obs = map[int]*ecs.Observer{}
 	x.tobs = map[int]TypedObserver{}
 	x.queries = map[int]*openQuery{}
+	resetHeapTracker()
 	x.oldObs = map[int]oldObs{}
 	x.obsSpec = map[int]GenObs{}
 	x.oldFilters = map[int]*regFilter{}
@@ -632,6 +687,17 @@ func sortedKeys[V any](m map[string]V) []string {
 
 func (x *Exec) mapFor(tuple []string) TypedMap {
 	key := strings.Join(tuple, ",")
+	if x.Cfg.MapT && len(tuple) == 1 {
+		if ctor, ok := mapTCtors[key]; ok {
+			x.Cover["Map"]++
+			if m, ok := x.maps["T:"+key]; ok {
+				return m
+			}
+			m := ctor(x.w)
+			x.maps["T:"+key] = m
+			return m
+		}
+	}
 	x.Cover[fmt.Sprintf("Map%d", len(tuple))]++
 	if m, ok := x.maps[key]; ok {
 		return m
@@ -713,7 +779,9 @@ func (x *Exec) typedRels(tuple []string, tg map[string]ecs.Entity) []ecs.Relatio
 	}
 	sort.Strings(keys)
 	r := []ecs.Relation{}
+	mapTTargets = mapTTargets[:0]
 	for _, k := range keys {
+		mapTTargets = append(mapTTargets, tg[k])
 		idx := -1
 		for i, c := range tuple {
 			if c == k {
@@ -738,6 +806,8 @@ func relTyped(name string, t ecs.Entity) ecs.Relation {
 		return ecs.Rel[CR](t)
 	case "S":
 		return ecs.Rel[CS](t)
+	case "Q":
+		return ecs.Rel[CQ](t)
 	}
 	panic("harness: not a relation component: " + name)
 }
@@ -767,9 +837,41 @@ func (x *Exec) payload(name string, p unsafe.Pointer) *int64 {
 	return reflect.NewAt(compTypes[name], p).Interface().(compT).P()
 }
 
+// put writes a component payload through a pointer into the component; for pointer-bearing components the
+// heap mirrors are rebuilt (fresh objects).  get decodes it (a negative marker if the pointee data is wrong).
+func (x *Exec) put(c string, p *int64, v int64) {
+	*p = v
+	switch c {
+	case "P":
+		(*CP)(unsafe.Pointer(p)).Sync()
+	case "Q":
+		(*CQ)(unsafe.Pointer(p)).Sync()
+	}
+}
+
+func (x *Exec) get(c string, p *int64) int64 {
+	switch c {
+	case "P":
+		return (*CP)(unsafe.Pointer(p)).Decode()
+	case "Q":
+		return (*CQ)(unsafe.Pointer(p)).Decode()
+	}
+	return *p
+}
+
+func (x *Exec) serialOf(c string, p *int64) int64 {
+	switch c {
+	case "P":
+		return (*CP)(unsafe.Pointer(p)).Serial()
+	case "Q":
+		return (*CQ)(unsafe.Pointer(p)).Serial()
+	}
+	return 0
+}
+
 func (x *Exec) writeUnsafe(e ecs.Entity, vals map[string]int64) {
 	for c, v := range vals {
-		*x.payload(c, x.w.Unsafe().Get(e, x.ids[c])) = v
+		x.put(c, x.payload(c, x.w.Unsafe().Get(e, x.ids[c])), v)
 	}
 }
 
@@ -778,9 +880,9 @@ func (x *Exec) writeUnsafe(e ecs.Entity, vals map[string]int64) {
 
 func (x *Exec) readVal(e ecs.Entity, c string) int64 {
 	if x.Cfg.Path == "unsafe" {
-		return *x.payload(c, x.w.Unsafe().Get(e, x.ids[c]))
+		return x.get(c, x.payload(c, x.w.Unsafe().Get(e, x.ids[c])))
 	}
-	return *x.mapFor([]string{c}).Get(e)[0]
+	return x.get(c, x.mapFor([]string{c}).Get(e)[0])
 }
 
 func (x *Exec) readTarget(e ecs.Entity, c string) ecs.Entity {
@@ -1084,7 +1186,7 @@ func (x *Exec) dispatch(op GenOp, e ecs.Entity, tg map[string]ecs.Entity, lo *Lo
 				vs := valsFor(tuple, op.Vals)
 				h = m.NewEntityFn(func(ps []*int64) {
 					for i := range ps {
-						*ps[i] = vs[i]
+						x.put(tuple[i], ps[i], vs[i])
 					}
 				}, x.typedRels(tuple, tg))
 			} else {
@@ -1103,13 +1205,28 @@ func (x *Exec) dispatch(op GenOp, e ecs.Entity, tg map[string]ecs.Entity, lo *Lo
 		}
 		tuple := x.canon(op.Add)
 		m := x.mapFor(tuple)
+		if op.Mode == "noinit" {
+			// no callback: the components must read as zero; the new handles are found by a scan
+			m.NewBatchFn(op.N, nil, x.typedRels(tuple, tg))
+			known := map[ecs.Entity]bool{}
+			for _, h := range x.issued {
+				known[h] = true
+			}
+			q := ecs.NewFilter0(w).Query()
+			for q.Next() {
+				if !known[q.Entity()] {
+					lo.Ret = append(lo.Ret, q.Entity())
+				}
+			}
+			return
+		}
 		k := 0
 		m.NewBatchFn(op.N, func(h ecs.Entity, ps []*int64) {
 			k++
 			bv := BVal{E: h, V: map[string]int64{}}
 			for i := range ps {
 				v := int64(1000*k + 10*len(x.ords) + x.compIndex(tuple[i]) + 1)
-				*ps[i] = v
+				x.put(tuple[i], ps[i], v)
 				bv.V[tuple[i]] = v
 			}
 			lo.Ret = append(lo.Ret, h)
@@ -1225,7 +1342,7 @@ func (x *Exec) dispatch(op GenOp, e ecs.Entity, tg map[string]ecs.Entity, lo *Lo
 			bv := BVal{E: h, V: map[string]int64{}}
 			for i := range ps {
 				v := 100000 + 100*int64(x.ordOf(h)) + int64(x.compIndex(tuple[i])) + 3
-				*ps[i] = v
+				x.put(tuple[i], ps[i], v)
 				bv.V[tuple[i]] = v
 			}
 			lo.Bvals = append(lo.Bvals, bv)
@@ -1302,6 +1419,11 @@ func (x *Exec) dispatch(op GenOp, e ecs.Entity, tg map[string]ecs.Entity, lo *Lo
 		rf.unregister()
 		delete(x.filters, op.F)
 	case "QOpen":
+		if x.Cfg.Path == "unsafe" && op.F == 0 {
+			lo.Mode = "unsafe"
+		} else {
+			lo.Mode = "typed"
+		}
 		x.queries[op.Q] = x.openQuery(op.F, op.Flt)
 	case "QNext":
 		q := x.queries[op.Q]
@@ -1338,7 +1460,7 @@ func (x *Exec) dispatch(op GenOp, e ecs.Entity, tg map[string]ecs.Entity, lo *Lo
 							rec := &x.cur.Cbs[len(x.cur.Cbs)-1]
 							for i, c := range tuple {
 								if ps[i] != nil {
-									rec.PV[c] = *ps[i]
+									rec.PV[c] = x.get(c, ps[i])
 								}
 							}
 						}
@@ -1442,7 +1564,7 @@ func (q *openQuery) next(x *Exec, v *Visit) bool {
 		v.E = q.uq.Entity()
 		for _, c := range q.ids {
 			p := q.uq.Get(x.ids[c])
-			v.V[c] = *x.payload(c, p)
+			v.V[c] = x.get(c, x.payload(c, p))
 			if p != x.w.Unsafe().Get(v.E, x.ids[c]) {
 				v.PtrEq = false
 			}
@@ -1463,7 +1585,7 @@ func (q *openQuery) next(x *Exec, v *Visit) bool {
 		ps := q.tq.Get()
 		mp := x.mapFor(q.ids).Get(v.E)
 		for i, c := range q.ids {
-			v.V[c] = *ps[i]
+			v.V[c] = x.get(c, ps[i])
 			if ps[i] != mp[i] {
 				v.PtrEq = false
 			}
@@ -1541,7 +1663,7 @@ func (x *Exec) probe1(f int, flt GenFlt, api string) LogProbe {
 				v := Visit{E: q.Entity(), V: map[string]int64{}, T: map[string]ecs.Entity{}, PtrEq: true}
 				for _, c := range flt.With {
 					p := q.Get(x.ids[c])
-					v.V[c] = *x.payload(c, p)
+					v.V[c] = x.get(c, x.payload(c, p))
 					if p != x.w.Unsafe().Get(v.E, x.ids[c]) {
 						v.PtrEq = false
 					}
@@ -1575,7 +1697,7 @@ func (x *Exec) probe1(f int, flt GenFlt, api string) LogProbe {
 			ps := q.Get()
 			mp := x.mapFor(rf.ids).Get(v.E)
 			for i, c := range rf.ids {
-				v.V[c] = *ps[i]
+				v.V[c] = x.get(c, ps[i])
 				if ps[i] != mp[i] {
 					v.PtrEq = false
 				}
@@ -1731,6 +1853,22 @@ func (x *Exec) misuseOps() []GenOp {
 	firstDead := 0
 	if len(dead) > 1 {
 		firstDead = dead[1]
+		// prefer a stale handle whose id has been recycled by an entity that is alive now
+		liveIDs := map[uint32]bool{}
+		for _, a := range alive {
+			liveIDs[x.ords[a-1].ID()] = true
+		}
+		cands := []int{}
+		for _, d := range dead[1:] {
+			if liveIDs[x.ords[d-1].ID()] {
+				cands = append(cands, d)
+			}
+		}
+		if len(cands) > 0 && x.rng.Intn(4) != 0 {
+			firstDead = cands[x.rng.Intn(len(cands))]
+		} else if x.rng.Intn(2) == 0 {
+			firstDead = dead[1+x.rng.Intn(len(dead)-1)]
+		}
 	}
 	for _, d := range dead {
 		for _, c := range plain {
@@ -1835,6 +1973,24 @@ func (x *Exec) misuseOps() []GenOp {
 			}
 		}
 	}
+	// queries and batches that name a removed entity as relation target (typed API: checked when created)
+	if firstDead > 0 && x.Cfg.Path != "unsafe" {
+		for _, r := range rels {
+			for _, extra := range [][]string{{}, plain} {
+				with := append([]string{r}, extra...)
+				if len(with) > 3 {
+					with = with[:3]
+				}
+				o := mk("QOpen", 0, none, none, nil, "typed")
+				o.Q = 900 + len(ops)
+				o.Flt = GenFlt{With: with, Without: []string{}, Ft: FlexMap[int]{}, Qt: FlexMap[int]{r: firstDead}}
+				ops = append(ops, o)
+				o2 := mk("KillBatch", 0, none, none, nil, "fn")
+				o2.Flt = GenFlt{With: with, Without: []string{}, Ft: FlexMap[int]{r: firstDead}, Qt: FlexMap[int]{}}
+				ops = append(ops, o2)
+			}
+		}
+	}
 	for _, r := range rels {
 		ops = append(ops, mk("New", 0, []string{r}, none, nil, "val")) // relation target omitted
 		if firstDead > 0 {
@@ -1880,5 +2036,8 @@ func (x *Exec) RunSequence(ops []GenOp, note string) {
 		x.statsEvent()
 	}
 	x.qmisBattery()
+	if x.Cfg.Mem {
+		x.memEvent()
+	}
 	x.misuseBattery(len(ops))
 }
